@@ -832,7 +832,7 @@ Definition ns_cw (k3 : kcp) : Z :=
 
 Definition ns_ph4 (k3 : kcp) (ft : Z) : list seg * list seg * Z * Z :=
   if ft =? FLUSH_FULL
-  then admit (snd_queue k3) (snd_buf k3) (conv k3) (snd_una k3) (snd_nxt k3) (ns_cw k3) 0
+  then admit_segs (snd_queue k3) (snd_buf k3) (conv k3) (snd_una k3) (snd_nxt k3) (ns_cw k3) 0
   else (snd_queue k3, snd_buf k3, snd_nxt k3, 0).
 
 Definition ns_k4 (k3 : kcp) (sq sb : list seg) (nxt : Z) : kcp :=
@@ -1072,16 +1072,16 @@ Proof.
   - intros H; inversion H; subst. exact Hst.
 Qed.
 
-(* ---- phase 4: what admit moves ---- *)
+(* ---- phase 4: what admit_segs moves ---- *)
 Definition ns_adm (cv : Z) (s s' : seg) : Prop :=
   s_frg s' = s_frg s /\ s_data s' = s_data s /\ s_acked s' = s_acked s /\
   s_conv s' = cv /\ s_cmd s' = c_IKCP_CMD_PUSH.
 
 Lemma ns_admit_spec cv una cw : forall sq sb nxt n sq' sb' nxt' n',
-  admit sq sb cv una nxt cw n = (sq', sb', nxt', n') ->
+  admit_segs sq sb cv una nxt cw n = (sq', sb', nxt', n') ->
   exists pre adm, sq = pre ++ sq' /\ sb' = sb ++ adm /\ Forall2 (ns_adm cv) pre adm.
 Proof.
-  induction sq as [|s t IH]; intros sb nxt n sq' sb' nxt' n' H; cbn [admit] in H.
+  induction sq as [|s t IH]; intros sb nxt n sq' sb' nxt' n' H; cbn [admit_segs] in H.
   - inversion H; subst. exists [], []. split; [reflexivity|]. split; [symmetry; apply app_nil_r|constructor].
   - destruct (itimediff nxt (u32 (una + cw)) >=? 0).
     + inversion H; subst. exists [], []. split; [reflexivity|]. split; [symmetry; apply app_nil_r|constructor].
